@@ -558,10 +558,222 @@ func v16Chunks(r *vu.Rng, ops []string, b []byte) []string {
 	return ops
 }
 
+
+// v16Lit is an HPACK "literal header field without indexing — new name" (no Huffman, lengths < 127):
+// self-contained, so blocks built by the generator never depend on dynamic-table state.
+func v16Lit(name, value string) []byte {
+	b := []byte{0x00, byte(len(name))}
+	b = append(b, name...)
+	b = append(b, byte(len(value)))
+	return append(b, value...)
+}
+
+func v16Block(fields [][2]string) []byte {
+	var b []byte
+	for _, f := range fields {
+		b = append(b, v16Lit(f[0], f[1])...)
+	}
+	return b
+}
+
+// v16PadFuzz: structured frame fuzz of the PADDED / PRIORITY layouts of HEADERS, DATA and
+// PUSH_PROMISE: every flag combination, with the declared pad length at the boundaries of
+// (a) the whole payload, (b) the payload left after the 5 priority bytes, (c) the header block,
+// and with the padding bytes present, absent or short.
+func v16PadFuzz(r *vu.Rng, ops []string) []string {
+	if r.Chance(5, 6) {
+		ops = append(ops, "pre", "set")
+	} else {
+		ops = append(ops, "pre")
+	}
+	if r.Chance(1, 4) {
+		ops = append(ops, "block")
+	}
+	sid := uint32(1)
+	good := v16Block([][2]string{{":method", "GET"}, {":scheme", "https"}, {":path", "/"}, {":authority", "dummy.tld"}})
+	for n := r.Range(1, 8); n > 0; n-- {
+		typ := byte(1)
+		switch k := r.Intn(20); {
+		case k < 4:
+			typ = 0
+		case k < 6:
+			typ = 5
+		case k < 7:
+			typ = 9 // CONTINUATION has no PADDED/PRIORITY flags: they must be ignored
+		}
+		var flags byte
+		padded := r.Chance(5, 6)
+		prio := (typ == 1 && r.Chance(1, 2)) || (typ != 1 && r.Chance(1, 8))
+		if padded {
+			flags |= 0x8
+		}
+		if prio {
+			flags |= 0x20
+		}
+		if r.Chance(4, 5) {
+			flags |= 0x4
+		}
+		if r.Bool() {
+			flags |= 0x1
+		}
+		var body []byte
+		switch {
+		case typ == 0:
+			body = r.Bytes(r.Intn(6))
+		case r.Chance(1, 3):
+			body = []byte{0x82, 0x84} // the two-byte block of the classic short frame
+		case r.Chance(1, 6):
+			body = nil
+		default:
+			body = good
+		}
+		var fixed []byte
+		if typ == 5 {
+			fixed = append(fixed, 0, 0, 0, byte(2*r.Range(1, 4))) // promised stream id
+		}
+		if prio {
+			dep := uint32(r.Intn(8))
+			if r.Chance(1, 4) {
+				dep = sid
+			}
+			if r.Chance(1, 4) {
+				dep |= 1 << 31 // exclusive
+			}
+			fixed = append(fixed, byte(dep>>24), byte(dep>>16), byte(dep>>8), byte(dep), byte(r.Intn(256)))
+		}
+		pre := len(fixed)
+		fixed = append(fixed, body...)
+		var payload []byte
+		if padded {
+			cands := []int{0, len(body), len(body) + 1, len(body) - 1, len(fixed), len(fixed) + 1, len(fixed) - 1,
+				pre, pre + 1, len(fixed) - pre + 1, 255, r.Intn(12)}
+			padLen := cands[r.Intn(len(cands))]
+			if padLen < 0 {
+				padLen = 0
+			}
+			if padLen > 255 {
+				padLen = 255
+			}
+			actual := padLen
+			switch r.Intn(4) {
+			case 0:
+				actual = 0 // declared, not present: the pad length eats into the fixed part / block
+			case 1:
+				actual = r.Intn(padLen + 1)
+			}
+			payload = append([]byte{byte(padLen)}, fixed...)
+			payload = append(payload, make([]byte, actual)...)
+		} else {
+			payload = fixed
+		}
+		if r.Chance(1, 10) && len(payload) > 0 {
+			payload = payload[:r.Intn(len(payload))] // truncated mandatory fields
+		}
+		use := sid
+		if typ == 0 && sid > 1 && r.Bool() {
+			use = sid - 2
+		}
+		if r.Chance(1, 12) {
+			use = 0
+		}
+		ops = append(ops, "raw "+vu.Hex(v16Frame(typ, flags, use, payload)))
+		if typ == 1 {
+			sid += 2
+		}
+		if r.Chance(1, 8) {
+			ops = append(ops, "raw "+vu.Hex(v16Frame(6, 0, 0, r.Bytes(8))))
+		}
+	}
+	return ops
+}
+
+// v16RejectedThenData: a HEADERS frame without END_STREAM that the server rejects AFTER it has created
+// the stream (self-dependent PRIORITY section, bad pseudo-header set) or before (malformed field),
+// followed at once by DATA / trailers / WINDOW_UPDATE / RST_STREAM on the same stream — with the
+// server's writer free, or stalled behind a client that does not read (the RST_STREAM is then still
+// queued when the next frame is processed).
+func v16RejectedThenData(r *vu.Rng, ops []string) []string {
+	ops = append(ops, "pre", "set")
+	if r.Chance(1, 3) {
+		ops = append(ops, "req 1")
+	}
+	stalled := r.Chance(2, 3)
+	if stalled {
+		ops = append(ops, "block")
+		if r.Chance(4, 5) {
+			ops = append(ops, "raw "+vu.Hex(v16Frame(6, 0, 0, r.Bytes(8)))) // its ACK's flush stalls the writer
+		}
+	}
+	sid := uint32(3)
+	for n := r.Range(1, 4); n > 0; n-- {
+		fields := [][2]string{{":method", "POST"}, {":scheme", "https"}, {":path", "/u"}, {":authority", "dummy.tld"}}
+		var prio []byte
+		switch r.Intn(9) {
+		case 0, 1: // PRIORITY section depending on itself
+			prio = []byte{byte(sid >> 24), byte(sid >> 16), byte(sid >> 8), byte(sid), 16}
+		case 2:
+			fields = fields[:2] // no :path
+		case 3:
+			fields[0][1] = "" // empty :method
+		case 4:
+			fields = append([][2]string{{":protocol", "websocket"}}, fields...)
+		case 5:
+			fields[1][1] = "ftp"
+		case 6:
+			fields = [][2]string{{":method", "CONNECT"}, {":path", "/"}, {":authority", "h:1"}}
+		case 7:
+			fields = append(fields, [2]string{"Upper", "x"}) // rejected by the framer: no stream object
+		default:
+			fields = append(fields, [2]string{"connection", "close"}) // answered 400 by the server itself
+		}
+		flags := byte(0x4) // END_HEADERS, no END_STREAM
+		if r.Chance(1, 8) {
+			flags |= 1
+		}
+		payload := v16Block(fields)
+		if prio != nil {
+			flags |= 0x20
+			payload = append(prio, payload...)
+		}
+		b := v16Frame(1, flags, sid, payload)
+		var next []byte
+		for k := r.Range(1, 3); k > 0; k-- {
+			switch r.Intn(6) {
+			case 0, 1, 2:
+				es := byte(0)
+				if r.Bool() {
+					es = 1
+				}
+				next = append(next, v16Frame(0, es, sid, r.Bytes(r.Intn(10)))...)
+			case 3:
+				next = append(next, v16Frame(1, 5, sid, v16Block([][2]string{{"x-t", "1"}}))...) // trailers
+			case 4:
+				next = append(next, v16Frame(8, 0, sid, []byte{0, 0, 0, byte(r.Intn(3))})...)
+			default:
+				next = append(next, v16Frame(3, 0, sid, []byte{0, 0, 0, 8})...)
+			}
+		}
+		if r.Chance(2, 3) {
+			ops = append(ops, "raw "+vu.Hex(append(b, next...)))
+		} else {
+			ops = append(ops, "raw "+vu.Hex(b), "raw "+vu.Hex(next))
+		}
+		sid += 2
+	}
+	if stalled && r.Chance(1, 2) {
+		ops = append(ops, "unblock")
+	}
+	return ops
+}
+
 func v16Gen(r *vu.Rng, i int) []string {
 	adv := []int{1, 2, 5, 250}[r.Intn(4)]
 	ops := []string{fmt.Sprintf("conn %d", adv)}
-	switch sc := r.Intn(20); {
+	switch sc := r.Intn(27); {
+	case sc >= 20 && sc < 24:
+		ops = v16PadFuzz(r, ops)
+	case sc >= 24:
+		ops = v16RejectedThenData(r, ops)
 	case sc < 3: // random bytes, no preface
 		ops = v16Chunks(r, ops, r.Bytes(r.Intn(120)))
 	case sc < 6: // preface (maybe damaged) + random bytes
